@@ -137,7 +137,7 @@ func (r *Replayer) run(spec RunSpec, trace []int64, known map[string]bool, race 
 // reproduces: does the native run show the violation the engine predicted?
 func (r *Replayer) reproduces(spec RunSpec, v Violation, known map[string]bool) (bool, string) {
 	timeout := 20 * time.Second
-	if v.Kind == "budget" {
+	if v.Kind == "budget" || v.Kind == "deadlock" {
 		timeout = 5 * time.Second
 	}
 	// outcomes that depend on the (randomised) native map iteration order may need several attempts
